@@ -1,4 +1,5 @@
 import GdslModel.Lemmas.Serde
+import GdslModel.Lemmas.Extra
 /-!
 # C12 — serialisation round-trips
 `decompose s nval π` is what `Serialize` writes for a container whose hash map iterates in order
@@ -34,5 +35,24 @@ theorem Serde.nonmember_error (s : Store K E) (nval : K → N) (π : List K)
     (k : K) (hk : k ∈ π) (p : K × E) (hp : p ∈ (s.get k).out) (hnot : p.1 ∉ π) :
     rebuild (decompose s nval π).1 (decompose s nval π).2 = none :=
   Serde.nonmember_error' s nval π k hk p hp hnot
+
+/-- in the setting of `Serde.roundtrip_inn`: every member gets back its incoming list up to order, and
+    hence (the outgoing list coming back exactly) the same multiset of incident half-edges -/
+theorem Serde.roundtrip_incident_perm (s s' : Store K E) (nval : K → N) (π : List K) (hnd : π.Nodup)
+    (hm : Mirror s) (hclosed : ∀ k ∈ π, ∀ p ∈ (s.get k).out, p.1 ∈ π)
+    (hclosed' : ∀ k ∈ π, ∀ p ∈ (s.get k).inn, p.1 ∈ π)
+    (h : rebuild (decompose s nval π).1 (decompose s nval π).2 = some (π.map (fun k => (k, nval k)), s')) :
+    ∀ k ∈ π, (s'.get k).inn.Perm (s.get k).inn ∧ (unAdj s' k).Perm (unAdj s k) := by
+  intro k hk
+  have hinn : (s'.get k).inn.Perm (s.get k).inn :=
+    perm_of_vals_eq _ _ (Serde.roundtrip_inn s s' nval π hnd hm hclosed hclosed' h k hk)
+  obtain ⟨s'', hs'', hout, _⟩ := Serde.roundtrip s nval π hnd hclosed
+  rw [h] at hs''
+  simp only [Option.some.injEq, Prod.mk.injEq, true_and] at hs''
+  subst hs''
+  refine ⟨hinn, ?_⟩
+  unfold unAdj
+  rw [hout k hk]
+  exact List.Perm.append (List.Perm.refl _) hinn
 
 end G
